@@ -124,6 +124,16 @@ def m_atomic_fetch_add(c):
     return old
 
 
+@model('Atomic::fetch_max', 'AtomicU64::fetch_max', 'AtomicUsize::fetch_max', 'Atomic::fetch_min', 'AtomicU64::fetch_min', 'AtomicUsize::fetch_min')
+def m_atomic_fetch_max(c):
+    cell = _atomic_cell(c)
+    old = cell.load(0, None, c.st)
+    lt = z3.ULT if not old.signed else (lambda a, b: a < b)
+    pick_new = lt(old.v, c.args[1].v) if c.canon.endswith('max') else lt(c.args[1].v, old.v)
+    cell.store(0, Int(z3.simplify(z3.If(pick_new, c.args[1].v, old.v)), old.signed), c.st)
+    return old
+
+
 @model('Atomic::fetch_sub', 'AtomicU64::fetch_sub', 'AtomicUsize::fetch_sub')
 def m_atomic_fetch_sub(c):
     cell = _atomic_cell(c)
